@@ -129,3 +129,28 @@ theorem update_mobile_tie (o : Obj) (p : Params) (d dc : Int) (r : Rec) (st : St
 theorem all_translated : FollowUpSrc.untranslated = [] := by decide
 
 end LdarModel.FollowUpTie
+
+/-! non-vacuity: a site in the candidate pool (rate 3) is screened again at rate 5 with threshold 2 and no
+instant threshold: `Rel` holds and the translated decision takes the plan, updates it and puts it back -/
+namespace LdarModel.FollowUpTie
+open LdarModel.FollowUp LdarModel.FollowUpSrc
+
+def exPl : Plan := { site := 7, rate := 3, rateLong := 0, rates := [3], latest := 1 }
+def exSt : St := { m := { pool := [exPl], inPool := fun s => s = 7 }, sh := {} }
+def exPar : Params := { thr := 2 }
+def exRec : Rec := { date := 4, site := 7, rate := 5 }
+def exObj : Obj :=
+  { detection_count := 0, threshold := 2, in_pool := true, in_queue := false, plan_ge_inst := false,
+    plan_ge_thr := true, rec_ge_inst := false, rec_rate := 5, effects := [] }
+
+example : Rel exObj exPar 4 exRec exSt := by
+  refine ⟨rfl, by decide, by decide, by decide, by decide, by decide, by decide, ?_, ?_⟩
+  · intro _; exact ⟨exPl, by decide, by decide, by decide⟩
+  · intro h; simp [exSt, exRec] at h
+
+example : (update_mobile exObj).1.effects =
+    ["pool_take(detection_record.site_id)",
+     "plan_update@$pool_take(detection_record, self._redund_filter, self._name, date_to_check)",
+     "pool_add($pool_take)"] := by decide
+
+end LdarModel.FollowUpTie
